@@ -30,7 +30,8 @@ def bounds(tier):
     return {
         "alphabet": spaces.SIGMA_DOC,
         "max_len": 5 if tier == "quick" else 6,
-        "extended_alphabet_max_len": None if tier == "quick" else 5,
+        "extended_alphabet": spaces.SIGMA_DOC_EXT[len(spaces.SIGMA_DOC):],
+        "extended_alphabet_max_len": 3 if tier == "quick" else 5,
         "deviation_bound": 1 if tier == "quick" else 2,
         "family_sizes": SIZES_QUICK if tier == "quick" else SIZES_THOROUGH,
         "families": sorted(FAMILIES),
@@ -83,8 +84,7 @@ PREFIXES = ["", "@a{k0, t = {v}}\n"]
 
 def shards(tier):
     out = [("seq", s) for s in seq_shards(spaces.SIGMA_DOC, 5 if tier == "quick" else 6)]
-    if tier == "thorough":
-        out += [("ext", s) for s in seq_shards(spaces.SIGMA_DOC_EXT, 5)]
+    out += [("ext", s) for s in seq_shards(spaces.SIGMA_DOC_EXT, 3 if tier == "quick" else 5)]
     out += spaces.deviation_shards(len(spaces.BASE_DOCS), 1 if tier == "quick" else 2)
     sizes = SIZES_QUICK if tier == "quick" else SIZES_THOROUGH
     for name in sorted(FAMILIES):
